@@ -14,6 +14,10 @@ FAMS = ["conv_chain", "single", "unsupported", "mixed_cpu", "diamond", "lut_heav
 
 
 def classify(r):
+    tb = r.get("traceback") or ""
+    if r["status"] == "crash" and "netgen.py" in tb and "ethosu/vela" not in tb:
+        # the generator of the check failed before the compiler was called: an internal error of the check, not a verdict
+        raise RuntimeError("network generator failed for job %r:\n%s" % (r.get("job"), tb[-1500:]))
     if r["status"] in ("crash", "timeout"):
         exc = (r.get("exception") or "").split(":")[0]
         return {"crash_site": r.get("crash_site", "?"), "exception_type": exc}
